@@ -1,4 +1,4 @@
-/- driver ops: addrstr, addrparse, addrhash, addreq, addrcopy, b64enc, b64dec, b64decurl
+/- driver ops: addrstr, addrrestr, addrparse, addrhash, addreq, addrcopy, b64enc, b64dec, b64decurl
    texts are passed as the hex of their ASCII bytes (`-` = empty); results that are texts are printed as such. -/
 import TonVerif.Drv.Common
 import TonVerif.Model.Address
@@ -31,6 +31,12 @@ def handle? (op : String) (args : List String) : Option String :=
       | _, _ => "bad-op")
   | "addrparse", [t] => some (match textArg t with
       | some s => (match parse s with | some a => showAddr a | none => "err")
+      | none => "bad-op")
+  -- Address(text).to_str(flags): re-rendering an object that carries parsed flags (its own flags must not matter)
+  | "addrrestr", [t, fl] => some (match textArg t with
+      | some s => (match parse s with
+          | some a => optText (toStr a (flag fl 0) (flag fl 1) (flag fl 2) (flag fl 3))
+          | none => "err")
       | none => "bad-op")
   -- Address(Address(text)) : flags are dropped
   | "addrcopy", [t] => some (match textArg t with
